@@ -323,6 +323,74 @@ Definition rr_pixels (r : rrect) (st : style) : list (point * Z) :=
 Definition rr_styled_bounding_box (r : rrect) (st : style) : rect :=
   offset (rr_bounding_box r) (sat_u32_to_i32 (outside_stroke_width st)).
 
+(* ---- every intermediate fits its Rust type (C08 part; `true` = no overflow anywhere in the family) -------------- *)
+Definition fits_u32 (v : Z) : bool := (0 <=? v) && (v <=? u32_max).
+Definition fits_u64 (v : Z) : bool := (0 <=? v) && (v <=? 18446744073709551615).
+Definition fits_i64 (v : Z) : bool := (-9223372036854775808 <=? v) && (v <=? 9223372036854775807).
+
+(* corner_radii.rs:70-83: the (size, corner_size) the loop ends with *)
+Definition confine_choice (c : radii) (bb : size) : Z * Z :=
+  fold_left confine_step
+    [(sw (r_tl c) + sw (r_tr c), sw bb); (sh (r_tr c) + sh (r_br c), sh bb);
+     (sw (r_bl c) + sw (r_br c), sw bb); (sh (r_tl c) + sh (r_bl c), sh bb)] (0, 0).
+
+(* corner_radii.rs:64-67 (u32 sums), 87-90 (Size * u32 in u32; the comparisons of line 78 are u64 products of u32 values
+   and always fit) *)
+Definition confine_arith_ok (c : radii) (bb : size) : bool :=
+  fits_u32 (sw (r_tl c) + sw (r_tr c)) && fits_u32 (sh (r_tr c) + sh (r_br c)) &&
+  fits_u32 (sw (r_bl c) + sw (r_br c)) && fits_u32 (sh (r_tl c) + sh (r_bl c)) &&
+  (let '(side, corner_size) := confine_choice c bb in
+   if 0 <? corner_size
+   then forallb (fun s : size => fits_u32 (sw s * side) && fits_u32 (sh s * side)) [r_tl c; r_tr c; r_br c; r_bl c]
+   else true).
+
+(* ellipse_quadrant.rs:29-41 with ellipse/mod.rs:109-113, 188-204, circle/mod.rs:180-186:
+   Point - Size in i32 (the Size is cast with a debug assertion), radius * 2 in u32, top_left * 2 + (size - 1) in i32, squares and their product in u64,
+   the circle threshold diameter.pow(2) in u32 *)
+Definition quadrant_arith_ok (t : point) (rad : size) (q : quadrant) : bool :=
+  let etl := match q with
+             | QTopLeft => t
+             | QTopRight => psub_size t (x_axis rad)
+             | QBottomRight => psub_size t rad
+             | QBottomLeft => psub_size t (y_axis rad)
+             end in
+  let dw := sw rad * 2 in let dh := sh rad * 2 in
+  in_i32 (sw rad) && in_i32 (sh rad) && in_i32 (px etl) && in_i32 (py etl) &&
+  fits_u32 dw && fits_u32 dh &&
+  in_i32 (px etl * 2) && in_i32 (py etl * 2) &&
+  in_i32 (sat_sub_u32 dw 1) && in_i32 (sat_sub_u32 dh 1) &&
+  in_i32 (px etl * 2 + sat_sub_u32 dw 1) && in_i32 (py etl * 2 + sat_sub_u32 dh 1) &&
+  fits_u64 (dw * dw) && fits_u64 (dh * dh) &&
+  (if dw =? dh then fits_u32 (dw * dw) else fits_u64 (dh * dh * (dw * dw))).
+
+(* ellipse_quadrant.rs:52-54 with ellipse/mod.rs:207-218: point * 2 - center_2x in i32, squares in i64, weighted sum in u64 *)
+Definition quadrant_contains_arith_ok (e : equad) (p : point) : bool :=
+  let u := px p * 2 - px (eq_center_2x e) in
+  let v := py p * 2 - py (eq_center_2x e) in
+  in_i32 (px p * 2) && in_i32 (py p * 2) && in_i32 u && in_i32 v &&
+  fits_i64 (u * u) && fits_i64 (v * v) &&
+  (if ec_a (eq_ellipse e) =? ec_b (eq_ellipse e) then fits_u64 (u * u + v * v)
+   else fits_u64 (ec_b (eq_ellipse e) * (u * u)) && fits_u64 (ec_a (eq_ellipse e) * (v * v)) &&
+        fits_u64 (ec_b (eq_ellipse e) * (u * u) + ec_a (eq_ellipse e) * (v * v))).
+
+(* mod.rs:211-240 (Point + Size - Size in i32), 364-390 (rows.start + height as i32, rows.end - height as i32),
+   points.rs:93 / styled.rs:184 (x + 1 for x inside the row) *)
+Definition rr_arith_ok (r : rrect) : bool :=
+  let t := tl (rr_rect r) in let s := sz (rr_rect r) in
+  let c := confine (rr_corners r) s in
+  confine_arith_ok (rr_corners r) s &&
+  in_i32 (sw s) && in_i32 (sh s) &&
+  in_i32 (px t + sw s) && in_i32 (py t + sh s) &&
+  in_i32 (px t + sw s - sw (r_tr c)) && in_i32 (px t + sw s - sw (r_br c)) &&
+  in_i32 (py t + sh s - sh (r_br c)) && in_i32 (py t + sh s - sh (r_bl c)) &&
+  quadrant_arith_ok t (r_tl c) QTopLeft &&
+  quadrant_arith_ok (eq_bbox (corner_quadrant r QTopRight)).(tl) (r_tr c) QTopRight &&
+  quadrant_arith_ok (eq_bbox (corner_quadrant r QBottomRight)).(tl) (r_br c) QBottomRight &&
+  quadrant_arith_ok (eq_bbox (corner_quadrant r QBottomLeft)).(tl) (r_bl c) QBottomLeft &&
+  in_i32 (py t + sh (r_tl c)) && in_i32 (py t + sh (r_tr c)) &&
+  in_i32 (snd (rows (rr_rect r)) - sh (r_bl c)) && in_i32 (snd (rows (rr_rect r)) - sh (r_br c)) &&
+  in_i32 (snd (columns (rr_rect r)) + 1).
+
 (* ---- class of the known finding (FINDINGS-C06.md, known_findings.txt) ------------------------ *)
 (* some point of fill_area() lies outside stroke_area(): the two areas confine their radii separately *)
 Definition K06_rrect_fill_outside_stroke (r : rrect) (st : style) : bool :=
